@@ -1001,6 +1001,18 @@ def rule_r8(prog, res) -> None:
                 if g_ is not None and any(isinstance(y, (ast.Yield, ast.YieldFrom)) for y in walk_no_nested(g_.node)):
                     gp = [p for p in symx.explore(prog, g_, oracle=oracle, inline=symx.inline_private_helpers(prog)) if p.outcome != "raise"]
                     return bool(gp) and all(any(hands_through(e2, oracle, depth + 1) for e2 in p.events) for p in gp)
+            # … or to a generator taken from a class-level dispatch table (`self._METHODS[key](self)`): whichever key
+            # is looked up, every generator of the table has to hand the items through
+            if isinstance(e, ast.Call) and isinstance(e.func, ast.Subscript) and isinstance(e.func.value, ast.Attribute) and isinstance(e.func.value.value, ast.Name) and e.func.value.value.id in ("self", "cls", ci.name) and depth < 2:
+                from .c05 import _class_method_table
+
+                table = _class_method_table(ci, e.func.value.attr)
+                if table and len(e.args) == 1 and isinstance(e.args[0], ast.Name) and e.args[0].id == "self":
+                    for g_ in table:
+                        gp = [p for p in symx.explore(prog, g_, oracle=oracle, inline=symx.inline_private_helpers(prog)) if p.outcome != "raise"]
+                        if not gp or not all(any(hands_through(e2, oracle, depth + 1) for e2 in p.events) for p in gp):
+                            return False
+                    return True
             return False
 
         for designated in (True, False):
